@@ -254,8 +254,10 @@ impl<'a> Walk<'a> {
             .for_each(|entry| {
                 // The directory filter applies to the directory holding a file, not to the file:
                 // a pattern like `file/**` must not reject `file` itself.
+                // The same goes for a link, which may stand for a file; its target is filtered
+                // when it gets visited.
                 let dir = match entry.tpe {
-                    EntryType::File => path.parent().map(|p| p.as_ref()),
+                    EntryType::File | EntryType::SymLink => path.parent().map(|p| p.as_ref()),
                     _ => Some(&path),
                 };
                 if dir.map_or(true, |dir| self.path_selector.matches_dir(dir)) {
